@@ -3,7 +3,7 @@ package main
 func moreFamilies(tier string) []family {
 	fams := []family{newCfgFamily(tier)}
 	fams = append(fams, stateFamilies(tier)...)
-	fams = append(fams, newPressFamily(tier), newSimdFamily(tier), newAtomFamily(tier), newMoFamily(tier, false), newCfgmemFamily(tier), newTailcallFamily(tier), newTcchainFamily(tier), newXmodFamily(tier), newTblockFamily(tier), newOpreuseFamily(tier), &reexportFamily{tier})
+	fams = append(fams, newPressFamily(tier), newSimdFamily(tier), newAtomFamily(tier), newMoFamily(tier, false), newCfgmemFamily(tier), newTailcallFamily(tier), newTcchainFamily(tier), newXmodFamily(tier), newTblockFamily(tier), newOpreuseFamily(tier), newCondfuseFamily(tier), &reexportFamily{tier})
 	if tier == "thorough" {
 		fams = append(fams, newMoFamily(tier, true))
 	}
